@@ -106,6 +106,10 @@ def prob_vector(rng, n, pool):
     elif pool == 'equal':
         v = rng.choice([0.5, 0.25, 0.2, 0.1])
         vals = [v] * n
+    elif pool == 'rare':         # what a trainer writes for a large list: a few dominant counts and some 1-in-10^4..10^7 ones (repr() switches to exponent notation below 1e-4)
+        N = rng.choice([12602, 100003, 3 * 10 ** 6, 14344391])
+        cnt = sorted((rng.choice([1, 1, 2, 3, 7, rng.randint(1, N // (2 * n))]) for _ in range(n)), reverse=True)
+        vals = [c / N for c in cnt]
     elif pool == 'counts':       # what a trainer would write: k/N
         cnt = [rng.randint(1, 4) for _ in range(n)]
         N = sum(cnt) + rng.randint(0, 2 * n)
@@ -115,7 +119,7 @@ def prob_vector(rng, n, pool):
     vals.sort(reverse=True)
     return vals
 
-POOLS = ['dyadic', 'dyadic3', 'decimal', 'thirds', 'tiny', 'equal', 'counts', 'random', 'nearties']
+POOLS = ['dyadic', 'dyadic3', 'decimal', 'thirds', 'tiny', 'equal', 'counts', 'random', 'nearties', 'rare']
 
 ALPHA_WORDS = {1: ['a', 'b', 'z', 'я', 'é'], 2: ['ab', 'zz', 'hi', 'да', 'ñu'], 3: ['cat', 'dog', 'abc', 'кот', 'été', 'fox'],
                4: ['pass', 'word', 'love', 'тест', 'ärger', 'blue'][:4] + ['grün'], 5: ['hello', 'world', 'admin', 'привет'[:5], 'señor']}
